@@ -493,7 +493,7 @@ func init() {
 		}
 		n := 12
 		if e.Opts.Thorough() {
-			n = 200
+			n = 60 // the Lean driver answers about 1000 struct decodes per second
 		}
 		e.RunC05(n)
 		e.Res.Rule = "per generated struct type and random valid encoding: bit flips, byte replacement, truncation, type-nibble substitution, every embedded length replaced by " +
